@@ -40,8 +40,8 @@ CHECKS['C18'] = {
         'stub backends of the new path express "status S with a record" as (Collection{ManifestText}, error with HTTPStatus S)',
     ],
     'units': [
-        unit('fed', 'federation_c18', '^TestVerifC18', {'shards': 8, 'checks': 1500}, {'shards': 16, 'checks': 25000, 'timeout': 1500}),
-        unit('legacy', 'controller_c18', '^TestVerifC18LegacyRewriteSignatures', {'shards': 4, 'checks': 1500}, {'shards': 8, 'checks': 40000, 'timeout': 1500}),
+        unit('fed', 'federation_c18', '^TestVerifC18', {'shards': 8, 'checks': 1500}, {'shards': 16, 'checks': 18000, 'timeout': 1500}),
+        unit('legacy', 'controller_c18', '^TestVerifC18LegacyRewriteSignatures', {'shards': 4, 'checks': 1500}, {'shards': 8, 'checks': 28000, 'timeout': 1500}),
         unit('legacyfan', 'controller_c18', '^TestVerifC18LegacyFanOut', {'shards': 4, 'checks': 300}, {'shards': 8, 'checks': 6000, 'timeout': 1500}),
     ],
 }
